@@ -259,9 +259,25 @@ def run_golomb(case):
     res = Res()
     n_ok = 0
     bad = 0
+
+    def fast(x, ref):
+        bits = encode_golomb(x, P)
+        n = len(bits)
+        packed = pack_bits(bits)
+        ub = unpack_bits(ref)
+        y = decode_golomb(ub, P)
+        return n, packed, y, len(ub)
+
     for x in range(case["lo"], case["hi"]):
         ref = R.golomb_bytes(x, P)
         nbits = (x >> P) + 1 + P
+        # fast path: the whole round trip in one call; any deviation is classified step by step below
+        try:
+            if fast(x, ref) == (nbits, ref, x, len(ref) * 8 - nbits):
+                n_ok += 1
+                continue
+        except Exception:  # noqa
+            pass
         qc = f"q={x >> P}" if (x >> P) < 3 else "q>=3"
         bits = attempt(encode_golomb, x, P)
         if isinstance(bits, Rejected) or len(bits) != nbits:
@@ -739,8 +755,8 @@ def gen_bloom(tier, seed):
         combos = [(s, f) for s in (1, 2, 7, 8, 252, 253, 36000) for f in (1, 2, 50)]
         kinds = ["lens", "small", "edge", "none"]
     else:
-        small = (1, 2, 3, 7, 8, 9, 252, 253, 255, 256, 257)
-        combos = [(s, f) for s in small for f in range(1, 51)]
+        combos = [(s, f) for s in (1, 8, 253) for f in range(1, 51)]
+        combos += [(s, f) for s in (2, 3, 7, 9, 252, 255, 256, 257) for f in (1, 2, 3, 10, 49, 50)]
         combos += [(s, f) for s in (1000, 4096, 35999, 36000) for f in (1, 2, 3, 49, 50)]
         kinds = ["lens", "small", "edge", "none"]
     for s, f in combos:
@@ -811,7 +827,7 @@ def run_bloom(case):
     return res
 
 
-BS_CHUNK = 64
+BS_CHUNK = 16
 
 
 def gen_bloomsize(tier, seed):
@@ -833,7 +849,7 @@ def run_bloomsize(case):
     items = [H("c18bs", seed, 0)[:20], H("c18bs", seed, 1)]
     n_ok = 0
     for size in case["sizes"]:
-        for nf, tweak in ((3, 0), (11, 0xFFFFFFFF)):
+        for nf, tweak in ((3, 0), (11, 0xFFFFFFFF)) if size <= 4096 or size >= 35745 else ((3 + size % 5, (size * 0x01000193) & 0xFFFFFFFF),):
             want = set()
             for it in items:
                 want.update(R.bloom_positions(it, size, nf, tweak))
@@ -941,7 +957,7 @@ def engines(tier, seed):
             run_bloom,
             kind="E1",
             rule="sizes {1,2,7,8,252,253,36000} x function counts {1,2,50} x tweaks {0,1,2^31-1,2^31,2^32-1,99,filler} (thorough: sizes "
-            "{1,2,3,7,8,9,252,253,255,256,257} x every count 1..50, sizes {1000,4096,35999,36000} x {1,2,3,49,50}, 45 tweaks incl. single bits and tweaks "
+            "{1,8,253} x every count 1..50, sizes {2,3,7,9,252,255,256,257} x {1,2,3,10,49,50}, sizes {1000,4096,35999,36000} x {1,2,3,49,50}, 45 tweaks incl. single bits and tweaks "
             "making a seed wrap to 0) x item sequences {one item of every length 0..70, 3 hash-like items, edge items, none}: bit field equals the "
             "reference after every add (sizes <= 256) and at the end, every inserted item matches the serialized filter, filterload layout for "
             "flags 0,1,2 and default. Non-trivial = configuration with at least one item",
@@ -951,7 +967,7 @@ def engines(tier, seed):
             gen_bloomsize,
             run_bloomsize,
             kind="E1",
-            rule="every filter size 1..36000 bytes thorough (1..2048 and 35745..36000 quick) x (3 functions, tweak 0) and (11 functions, tweak 2^32-1), "
-            "two 20-byte items: the set bits of bit_field are exactly the reference positions murmur3(item, i*0xFBA4C795+tweak mod 2^32) mod 8*size",
+            rule="every filter size 1..36000 bytes thorough (1..2048 and 35745..36000 quick) x (3 functions, tweak 0) and (11 functions, tweak 2^32-1) (sizes 4097..35744: one configuration "
+            "per size, 3..7 functions, size-derived tweak), two 20-byte items: the set bits of bit_field are exactly the reference positions murmur3(item, i*0xFBA4C795+tweak mod 2^32) mod 8*size",
         ),
     ]
